@@ -231,7 +231,7 @@ Section CtrOps.
     | CNull => ret0 w
     | CLive be n st =>
         let '(r, st') := set_counter K bs (batch be) st cnt size in
-        (store_obj w id (wrap (CLive be n st')), [ERet r])
+        if N.eqb r 0 then ret0 w else (store_obj w id (wrap (CLive be n st')), [ERet r])
     end.
   Definition ctr_crypt (w : world) (id : N) (c : ctrobj K) (inp : buf) (size : N)
              (outnull : bool) : world * list event :=
@@ -298,7 +298,8 @@ Section ParOps.
     | PObj vt None ps => ret0 w
     | PObj vt (Some (n, k)) ps =>
         let '(r, k') := f k in
-        (store_obj w id (wrap (PObj vt (Some (n, k')) ps)), [ERet r])
+        if N.eqb r 0 then ret0 w
+        else (store_obj w id (wrap (PObj vt (Some (n, k')) ps)), [ERet r])
     end.
   Definition par_run (w : world) (p : parobj K) (size : N)
              (f : K -> list byte -> list byte -> list byte) (tw data : list byte)
@@ -357,9 +358,11 @@ Definition step (w : world) (o : op) : world * list event :=
   | OSetKey k (Some id) key size =>
       match k, lookup w id with
       | K128, Some (OK128 ks) =>
-          let '(r, ks') := m128_set_key ks key size in (store_obj w id (OK128 ks'), [ERet r])
+          let '(r, ks') := m128_set_key ks key size in
+          if N.eqb r 0 then ret0 w else (store_obj w id (OK128 ks'), [ERet r])
       | K64, Some (OK64 ks) =>
-          let '(r, ks') := m64_set_key ks key size in (store_obj w id (OK64 ks'), [ERet r])
+          let '(r, ks') := m64_set_key ks key size in
+          if N.eqb r 0 then ret0 w else (store_obj w id (OK64 ks'), [ERet r])
       | C128, Some (OC128 c) =>
           ctr_setter tks128 16 batch128 OC128 w id c (fun t => set_plain128 t key size)
       | C64, Some (OC64 c) =>
@@ -373,9 +376,11 @@ Definition step (w : world) (o : op) : world * list event :=
   | OSetTweakedKey k (Some id) key size =>
       match k, lookup w id with
       | T128, Some (OT128 t) =>
-          let '(r, t') := m128_set_tweaked_key t key size in (store_obj w id (OT128 t'), [ERet r])
+          let '(r, t') := m128_set_tweaked_key t key size in
+          if N.eqb r 0 then ret0 w else (store_obj w id (OT128 t'), [ERet r])
       | T64, Some (OT64 t) =>
-          let '(r, t') := m64_set_tweaked_key t key size in (store_obj w id (OT64 t'), [ERet r])
+          let '(r, t') := m64_set_tweaked_key t key size in
+          if N.eqb r 0 then ret0 w else (store_obj w id (OT64 t'), [ERet r])
       | C128, Some (OC128 c) =>
           ctr_setter tks128 16 batch128 OC128 w id c (fun t => m128_set_tweaked_key t key size)
       | C64, Some (OC64 c) =>
@@ -387,11 +392,14 @@ Definition step (w : world) (o : op) : world * list event :=
   | OSetTweak k (Some id) tw size =>
       match k, lookup w id with
       | T128, Some (OT128 t) =>
-          let '(r, t') := m128_set_tweak t tw size in (store_obj w id (OT128 t'), [ERet r])
+          let '(r, t') := m128_set_tweak t tw size in
+          if N.eqb r 0 then ret0 w else (store_obj w id (OT128 t'), [ERet r])
       | T64, Some (OT64 t) =>
-          let '(r, t') := m64_set_tweak t tw size in (store_obj w id (OT64 t'), [ERet r])
+          let '(r, t') := m64_set_tweak t tw size in
+          if N.eqb r 0 then ret0 w else (store_obj w id (OT64 t'), [ERet r])
       | MK, Some (OMK m) =>
-          let '(r, m') := mantis_set_tweak m tw size in (store_obj w id (OMK m'), [ERet r])
+          let '(r, m') := mantis_set_tweak m tw size in
+          if N.eqb r 0 then ret0 w else (store_obj w id (OMK m'), [ERet r])
       | C128, Some (OC128 c) =>
           ctr_setter tks128 16 batch128 OC128 w id c (fun t => m128_set_tweak t tw size)
       | C64, Some (OC64 c) =>
@@ -406,7 +414,7 @@ Definition step (w : world) (o : op) : world * list event :=
       match k, lookup w id with
       | MK, Some (OMK m) =>
           let '(r, m') := mantis_set_key m key size rounds mode in
-          (store_obj w id (OMK m'), [ERet r])
+          if N.eqb r 0 then ret0 w else (store_obj w id (OMK m'), [ERet r])
       | MC, Some (OMC c) =>
           ctr_setter mantis_ks 8 batch64 OMC w id c
                           (fun m => mantis_set_key m key size rounds 1)
